@@ -26,13 +26,23 @@ out.append("")
 out.append(f"{len(seeded)} seeded changes, {len(seeded)-len(missed)} reported by the check of the property they were written against" + (f" (missed: {', '.join(missed)})" if missed else "") + ".")
 out.append("")
 per = {}
+expected_notes = []
 for k, v in refs.items():
     p = k.split("/")[0]
     per.setdefault(p, [0, 0, []])
     per[p][0] += 1
-    if v["reported_by"]:
+    rb = dict(v["reported_by"])
+    # reports that are right: the rewrite keeps its own property and gives up another (expected.json)
+    ex = os.path.join(V, "refactors", k, "expected.json")
+    if os.path.exists(ex):
+        exp = json.load(open(ex))
+        for q in list(rb):
+            if q in exp and sorted(rb[q]) == sorted(exp[q]):
+                expected_notes.append(f"{k}: {q} {', '.join(rb[q])} — expected ({exp.get('why','')})")
+                del rb[q]
+    if rb:
         per[p][1] += 1
-        per[p][2].append(k + " -> " + "; ".join(f"{q}: {', '.join(r)}" for q, r in sorted(v["reported_by"].items())))
+        per[p][2].append(k + " -> " + "; ".join(f"{q}: {', '.join(r)}" for q, r in sorted(rb.items())))
 out.append("| rewrites written against | number | reported by any of the 18 checks |")
 out.append("|---|---|---|")
 for p in sorted(per):
@@ -40,6 +50,9 @@ for p in sorted(per):
 tot = sum(v[0] for v in per.values()); bad = sum(v[1] for v in per.values())
 out.append("")
 out.append(f"{tot} behaviour-preserving rewrites, {bad} reported (each rewrite is run against all 18 checks, not only its own).")
+for n in expected_notes:
+    out.append("")
+    out.append("Expected report, not counted above — " + n)
 block = "\n".join(out)
 p = os.path.join(V, "DESIGN.md")
 s = open(p).read()
